@@ -67,11 +67,28 @@ SeenChecks(e, g) ==
        /\ x[1] \in LegalTexts(p)
        /\ LET m == CHOOSE y \in Legal(p) : Uci(y) = x[1]  d == Occ(Apply(p, m)) >= 2
           IN (d => (x[3] = 0 /\ ~x[4])) /\ (~d => ~x[2])
+\* ... and one ply deeper (depth-2 search): the nodes entered at ply 2, reached by the two moves x[1], x[2]
+Seen2Checks(e, g) ==
+  LET p == g[Len(g)]
+      Occ(q) == Cardinality({i \in 1..Len(g) : g[i] = q})
+  IN \A x \in SeqToSet(e.seen2) :
+       /\ x[1] \in LegalTexts(p)
+       /\ LET m1 == CHOOSE y \in Legal(p) : Uci(y) = x[1]  p1 == Apply(p, m1)
+          IN /\ x[2] \in LegalTexts(p1)
+             /\ LET m2 == CHOOSE y \in Legal(p1) : Uci(y) = x[2]  d == Occ(Apply(p1, m2)) >= 2
+                IN (d => (x[3] /\ x[4] = 0 /\ ~x[5])) /\ (~d => ~x[3])
+\* ... and at ANY ply of a depth-5 search: the nodes whose position is a position of the game, or that returned through the rule
+SeenNChecks(e, g) ==
+  LET Occ(q) == Cardinality({i \in 1..Len(g) : g[i] = q})
+  IN \A x \in SeqToSet(e.seenN) :
+       LET d == Occ(FromJson(x[1])) >= 2 IN (d => (x[3] /\ x[4] = 0 /\ ~x[5])) /\ (~d => ~x[3])
 PositionChecks(e) ==
   [C04_survives |-> NoCrash(e),
    C04_board    |-> Has(e, "board") => FromJson(e.board) = Final(e),
    C09_third_occurrence_is_draw |-> Has(e, "rep") => RepChecks(e, GameOf(e)),
    C09_search_values_third_occurrence_as_draw |-> Has(e, "seen") => SeenChecks(e, GameOf(e)),
+   C09_search_values_third_occurrence_as_draw_at_ply_2 |-> Has(e, "seen2") => Seen2Checks(e, GameOf(e)),
+   C09_search_values_third_occurrence_as_draw_at_any_ply |-> Has(e, "seenN") => SeenNChecks(e, GameOf(e)),
    H_script_is_legal |-> Len(MovesOf(StartOf(e), e.moves)) = Len(e.moves) /\ Valid(StartOf(e))]
 
 (* -------- go -------- *)
